@@ -739,7 +739,8 @@ def conformance():
              ('integer brackets, one lane', np.array([0]), np.array([100]), np.array([10.0])),
              ('root at xmax', np.array([-1.0, 0.0]), np.array([7.0, 2.0]), np.array([7.0, 2.0])),
              ('root at xmin', np.array([2.0, -3.0]), np.array([5.0, 4.0]), np.array([2.0, -3.0])),
-             ('mixed: one root at xmax, one interior', np.array([-1.0, 0.0]), np.array([7.0, 5.0]), np.array([7.0, 1.25]))]
+             ('mixed: one root at xmax, one interior', np.array([-1.0, 0.0]), np.array([7.0, 5.0]), np.array([7.0, 1.25])),
+             ('large |x|', np.array([0.0, 0.0]), np.array([2e5, 3.0]), np.array([123456.789, 1.5]))]
     for algo in ('bisect', 'chandrupatla'):
         fn = getattr(OO, algo)
         for fname, mk_ in fs.items():
@@ -753,6 +754,8 @@ def conformance():
                     out.append(f'{algo}, f = {fname}, {cname} {lo0.tolist()}..{hi0.tolist()}: raises {type(e).__name__}: {e}')
                     continue
                 tol = 1e-6 if fname != '(x - r)^3' or algo == 'bisect' else 2e-3    # chandrupatla may stop at |f| tiny for the flat cubic
+                if cname == 'large |x|' and fname != 'x - r':
+                    continue        # tanh / expm1 saturate or overflow over a bracket of width 2e5
                 if r.shape != roots.shape or np.any(np.abs(r - roots) > tol) or np.any(r < lo0 - 1e-9) or np.any(r > hi0 + 1e-9):
                     out.append(f'{algo}, f = {fname}, {cname} {lo0.tolist()}..{hi0.tolist()}: returns {r.tolist()}, roots {roots.tolist()}')
                 if not (np.array_equal(lo, lo0) and np.array_equal(hi, hi0)):
@@ -767,6 +770,25 @@ def conformance():
                 pass
             except Exception as e:
                 out.append(f'{algo}: invalid bracket raises {type(e).__name__} instead of being rejected by the assertion')
+    # lanes of very different magnitude in one batch: every lane as if it were alone
+    roots_s = np.array([3.61e-6, 1.2e-6, 2.9e-6])
+
+    def f_mixed(x):
+        x = np.asarray(x, dtype=float)
+        if x.shape == (4,):
+            return np.append(np.expm1((x[:3] - roots_s) / 1e-6), x[3] - 3.3e9)
+        raise ValueError('shape')
+    lo_m, hi_m = np.array([0.0, 0.0, 0.0, 0.0]), np.array([4e-6, 4e-6, 4e-6, 8e9])
+    for algo in ('bisect', 'chandrupatla'):
+        try:
+            with np.errstate(all='ignore'):
+                rb = np.asarray(getattr(OO, algo)(f_mixed, lo_m.copy(), hi_m.copy()), dtype=float)
+            tol_s = 2e-8 if algo == 'bisect' else 1e-9
+            if np.any(np.abs(rb[:3] - roots_s) > tol_s) or abs(rb[3] - 3.3e9) > 1e-3:
+                out.append(f'{algo}: lanes with roots {roots_s.tolist()} batched with a lane whose root is 3.3e9 return {rb.tolist()} '
+                           f'(each lane is solved correctly on its own)')
+        except Exception as e:
+            out.append(f'{algo}: mixed-magnitude batch raises {type(e).__name__}: {e}')
     try:
         a = float(np.asarray(OO.chandrupatla(lambda x: x - 2.3, 0.0, 5.0)))
         b = float(np.asarray(OO.chandrupatla(lambda x: x - 2.3, np.array([0.0]), np.array([5.0])))[0])
